@@ -144,6 +144,7 @@ where
                 .stack_size(16 << 20)
                 .spawn_scoped(s, move || {
                     crate::panics::install_hook();
+                    crate::crash::altstack();
                     let mut stats = Stats::default();
                     let failed = std::cell::Cell::new(false);
                     let cfg = PtConfig {
@@ -237,6 +238,7 @@ where
                 .stack_size(16 << 20)
                 .spawn_scoped(s, move || {
                     crate::panics::install_hook();
+                    crate::crash::altstack();
                     let mut stats = Stats::default();
                     let mut fail: Option<(u64, Failure<C>)> = None;
                     loop {
